@@ -100,5 +100,13 @@ META["C17"] = {
     "note": "Known finding C17-member-ids (recipients are member ids, not inboxes) is printed as KNOWN-FINDING. Trusted: Lean kernel, transcription (replay-validated), fakes.",
 }
 
+META["C11"] = {
+    "category": "proof",
+    "design_ref": "DESIGN.md section 5 / C11",
+    "technique": "Lean 4: a 'panic sites' judgement (PanicsIn S p: whatever the request, stored values, fetched documents and other answers, p can panic only at a site in S) proved sound against the run semantics and established for all ~100 transcribed pub functions by a per-function lemma generated with a small elaborator (unfold + structural automation; induction for the fuel-bounded recursions, showing the fuel never runs out under positive limits); nil-freeness of ids read off values (after the GetId repair) removes the .String()-on-nil sites; the remaining 26 sites each need a nil value/URL from the application or are the recorded finding. Decoder: duration codec proved total. Trace replay + grammar-based hostile-input fuzzing of the real decoder and handlers under recover/watchdog.",
+    "text": "For every entry point (PostInbox, PostOutbox, GetInbox, GetOutbox, handler, Send): a panic outcome of the model lies in an explicit 26-element site list, for all inputs and environments with positive recursion limits; none of the recursion-fuel sites is in the list (no hang). The decoder is covered by the regenerated tables (C12-C14) for structure and by fuzzing for crashes; only the duration codec is modelled at the byte level.",
+    "note": "Six genuine crash defects were repaired in /repo (fix: commits, recorded). Known finding C11-getinbox-social-only. The classification of the 26 remaining sites as 'needs a contract-breaking application' is argued in DESIGN.md, not proved.",
+}
+
 _ALL = ["C%02d" % i for i in range(1, 21)]
 NOT_APPLICABLE = [{"property_id": p, "reason": PENDING} for p in _ALL if p not in META]
